@@ -485,4 +485,16 @@ Section InsertAt.
     intros Hb. unfold insert_at.
     destruct (N.leb_spec 18446744073709551616 (r * N.of_nat (sh_width sh) + c)); [reflexivity|lia].
   Qed.
+
+  Lemma insert_at_beyond (sh : shape) (data : list A) (r c : N) items :
+    (18446744073709551615 <= r * N.of_nat (sh_width sh) + c)%N ->
+    insert_at sh data r c items = None \/ insert_at sh data r c items = Some data.
+  Proof.
+    intros Hb. unfold insert_at.
+    destruct (N.leb_spec 18446744073709551616 (r * N.of_nat (sh_width sh) + c)); [left; reflexivity|].
+    destruct (N.eqb_spec (r * N.of_nat (sh_width sh) + c) 18446744073709551615) as [E|E]; [|lia].
+    destruct items as [|x items]; [|left; reflexivity]. cbn [andb]. right.
+    destruct (N.leb_spec (N.of_nat (length (mut_offsets sh (length data)))) (r * N.of_nat (sh_width sh) + c)); [reflexivity|].
+    rewrite combine_nil. reflexivity.
+  Qed.
 End InsertAt.
